@@ -338,6 +338,18 @@ func cmdProp(args []string) int {
 	var retryIdx []int
 	for i, r := range results {
 		if r.Status != "unsat" && r.Status != "sat" && r.Status != "disagree" {
+			// an obligation recorded as an open known finding is expected to stay undecided: no second round
+			isKnown := false
+			for _, f := range findings {
+				if f.Property == ps.ID && f.Status == "known" {
+					if ok, _ := regexp.MatchString(f.Obligation, r.Obl.Name); ok {
+						isKnown = true
+					}
+				}
+			}
+			if isKnown {
+				continue
+			}
 			retry = append(retry, r.Obl)
 			retryIdx = append(retryIdx, i)
 		}
